@@ -180,6 +180,24 @@ CLAIMED = {
         "the introspection-driven harness. Four defects repaired by fix: commits (63e0c48, a024b61, 3c0ca1c, 44ee165) plus "
         "5e2170b (substitute) shared with C08.",
    design="§4 C15"),
+ "C16": dict(
+   text="Model of MidiTrack as the pending-delta state machine the code is (events appended with whatever delta is pending). Lean, "
+        "all unbounded: toVarbyte_standard (int_to_varbyte = the standard VLQ for EVERY n), dec_toVarbyte (the standard decoder "
+        "inverts it), enc_len_le4 / enc_shape; entry/bar/track/passes refinement (the machine writes exactly the events of a pure "
+        "specification in which every event has its own delta - with or without a pending instrument change, wherever the rests "
+        "are, for any repeat count) and writeNote/NC/Bar/Track/Composition_spec; composition_parses: an independent SMF reader "
+        "(written in Lean from the format) reads every written file back as format 1, 72 ticks, declared tracks = chunks, exact "
+        "chunk lengths closed by one end-of-track, and exactly the specification's events; track_file_denotes: the note-on/off "
+        "events with absolute ticks are the music laid end to end from tick 0; entries/bars/passes_balanced (no note hangs or "
+        "overlaps itself when an entry's notes are distinct); sigs_specBars + keyEv_table (30 keys, kernel) + tick_table (values "
+        "1..128 in IEEE doubles, kernel); instrEvs_specEntries (one bank select + program change on the first sounding note's "
+        "channel, immediately before it). Tie A: every statement of MidiTrack, MidiFile and write_*, constants. Tie B: bytes "
+        "of real files vs the model, decoded by an independent Python SMF reader.",
+   note=TRUST + "Float log in int_to_varbyte / time_signature_event is modelled by the exact integer logarithm (tied by the "
+        "correspondence over all boundaries); mid-bar tempo changes (a bpm attribute on a container) are not modelled; the 2^32 "
+        "chunk-size and 2^16 track-count bounds are hypotheses of composition_parses. Four defects repaired by fix: commits "
+        "(259d7c9 key signature, adb3a11 bank select, a56fb57 tripled leading rest, fc6c3a8 trailing rest lost on repeat).",
+   design="§4 C16"),
  "C04": dict(
    text="Whole-table kernel evaluation (decide +kernel) of everything the statement says about each of the 30 keys, the 15 "
         "relative couples, the key objects and signature<->key inversion; unbounded theorems for rejections (any string, any "
